@@ -33,7 +33,7 @@ impl Scratch {
     /// The cache directory spelled differently (same directory): trailing slash, through a
     /// symlink, with dot segments, under a non-ASCII name. `sel` picks the spelling.
     pub fn cache_alias(&self, sel: u64) -> PathBuf {
-        match sel % 7 {
+        match sel % 8 {
             5 => {
                 // a path that is not valid UTF-8
                 use std::os::unix::ffi::OsStrExt;
@@ -58,6 +58,18 @@ impl Scratch {
                     let _ = std::os::unix::fs::symlink(&self.cache, &link);
                 }
                 link
+            }
+            6 => {
+                // a symlink followed by `..`: `<root>/alias_sub/ld` -> `<root>/cache`, so for
+                // the kernel `ld/..` is `<root>` (cancelling `ld/..` textually gives
+                // `<root>/alias_sub/cache`, which does not exist)
+                let sub = self.root.join("alias_sub");
+                let _ = std::fs::create_dir_all(&sub);
+                let link = sub.join("ld");
+                if std::fs::symlink_metadata(&link).is_err() {
+                    let _ = std::os::unix::fs::symlink(&self.cache, &link);
+                }
+                link.join("..").join("cache")
             }
             _ => self.cache.clone(),
         }
